@@ -6,10 +6,11 @@ from fractions import Fraction
 
 from .. import lib
 from .. import c17_prog
+from .. import c17_range
 
 PROP = "C17"
 PROP_FILE = "Props/C17.v"
-PRELUDE = "From Coq Require Import List ZArith.\nFrom AV Require Import Agg.AggModel.\nImport ListNotations.\nOpen Scope Z_scope.\n"
+PRELUDE = "From Coq Require Import List ZArith.\nFrom AV Require Import Agg.AggModel.\nFrom AV Require Import Agg.AggRange.\nImport ListNotations.\nOpen Scope Z_scope.\n"
 
 # percentile parameters: dyadic rationals (exact in f64, so the model's rational index equals the f64 one)
 PS = [(0, 1), (1, 1), (25, 1), (33, 1), (50, 1), (75, 1), (99, 1), (100, 1), (25, 2), (199, 2), (1, 4), (399, 4)]
@@ -50,11 +51,16 @@ def gen_cases(tier, seed):
         for kind in KINDS:
             for name in ("count", "not"):
                 cases.append(dict(name=name, p=(0, 1), kind=kind, vals=list(range(n))))
+    # value range: every aggregator at the integer column types, values at / near the ends of the type, totals outside it;
+    # each case on the harness with and without overflow checks (gen/c17_range.py)
+    cases += c17_range.gen_cases(tier, seed)
     return cases
 
 
 def case_line(c):
-    return "%s %d %d %s %s" % (c["name"], c["p"][0], c["p"][1], c["kind"], " ".join(map(str, c["vals"])))
+    """`ty` (optional): the column type the aggregator is instantiated with; absent = the driver's default (mean i32, others i64)"""
+    name = c["name"] + ("@" + c["ty"] if c.get("ty") else "")
+    return "%s %d %d %s %s" % (name, c["p"][0], c["p"][1], c["kind"], " ".join(map(str, c["vals"])))
 
 
 def parse_impl(c, line):
@@ -75,6 +81,10 @@ def parse_impl(c, line):
 
 
 def coq_expr(c, hint):
+    if c.get("ty"):
+        e = c17_range.coq_expr(c)     # sum in the column type (checked / wrapped), mean with f64 exactness tracked
+        if e:
+            return e
     v = lib.zlist(c["vals"])
     n = c["name"]
     if n in ("min", "max", "sum", "mean"):
@@ -91,19 +101,23 @@ def coq_expr(c, hint):
 
 def canon_model(c, v):
     n = c["name"]
+    if c.get("ty") and c17_range.coq_expr(c):
+        return c17_range.canon_model(c, v)
     if n == "percentile":
         if v == "Panic":
             return "panic"
         assert v[0] == "Ok", v
         return ("ok", list(v[1]))
     if n == "mean":
-        return ("ok", [float(s) / float(k) for (s, k) in v])
+        return ("ok", [float(Fraction(s, k)) for (s, k) in v])     # the rational rounded once, as the code's single division does
     return ("ok", list(v))
 
 
 def spec(c):
-    """the mathematical definition, independent of model and code"""
+    """the mathematical definition, independent of model and code; None = outside sum's stated precondition (no claim)"""
     l, n = c["vals"], c["name"]
+    if c.get("ty") and n in ("sum", "mean"):
+        return c17_range.spec(c)
     if n == "min":
         return ("ok", [min(l)] if l else [])
     if n == "max":
@@ -147,23 +161,47 @@ def tie(tier, seed, replay):
                  for i, c in enumerate(pcorpus)]
         # program level: the aggregators through `agg` items of compiled ascent! / ascent_par! programs (gen/c17_prog.py)
         progs = c17_prog.gen_programs(tier, seed)
+        # value range: the same rule shapes (without `sum`) over aggregated columns at / near i32::MIN and i32::MAX
+        progs += c17_range.range_programs(tier, seed, c17_prog)
         pmism, pstats = c17_prog.run(extra + progs, c17_prog.base_inputs(lib.rng_for(seed, PROP, "proginputs"), tier))
-    impl_lines = lib.ds_run(binary, "agg", [case_line(c) for c in cases]) if cases else []
+    # two builds of the driver: overflow checks on (dev profile) / off (release profile); `build` of the case selects one
+    impl_lines = [None] * len(cases)
+    for b in ("debug", "release"):
+        idx = [i for i, c in enumerate(cases) if c.get("build", "debug") == b]
+        if not idx:
+            continue
+        bin_b = binary
+        if b == "release":
+            bin_b, rout = c17_range.release_build()
+            if bin_b is None:
+                raise lib.Infra("ds_driver (release profile) does not build against the repo:\n" + rout[-3000:])
+        for i, l in zip(idx, lib.ds_run(bin_b, "agg", [case_line(cases[i]) for i in idx])):
+            impl_lines[i] = l
     impl = [parse_impl(c, l) for c, l in zip(cases, impl_lines)]
     exprs = [coq_expr(c, h if h else (0, None)) for c, (_, h) in zip(cases, impl)]
-    model = [canon_model(c, v) for c, v in zip(cases, lib.coq_eval(PROP, PRELUDE, exprs))]
-    mism, dist, seen = [], {}, set()
+    uniq = sorted(set(exprs))
+    table = dict(zip(uniq, lib.coq_eval(PROP, PRELUDE, uniq)))
+    model = [canon_model(c, table[e]) for c, e in zip(cases, exprs)]
+    mism, dist, seen, by_ty, by_family, by_build, outside_pre = [], {}, set(), {}, {}, {}, 0
     for c, (iv, hint), mv in zip(cases, impl, model):
         sv = spec(c)
         dist[c["name"]] = dist.get(c["name"], 0) + 1
+        by_ty[c.get("ty", "default")] = by_ty.get(c.get("ty", "default"), 0) + 1
+        by_build[c.get("build", "debug")] = by_build.get(c.get("build", "debug"), 0) + 1
+        if c.get("family"):
+            by_family[c["family"]] = by_family.get(c["family"], 0) + 1
         if c["vals"]:
-            seen.add((c["name"], tuple(c["p"]), c["kind"], tuple(c["vals"])))
-        if iv != sv:
+            seen.add((c["name"], tuple(c["p"]), c["kind"], tuple(c["vals"]), c.get("ty"), c.get("build")))
+        at = (" at column type %s, overflow checks %s" % (c["ty"], "on" if c.get("build", "debug") == "debug" else "off")) if c.get("ty") else ""
+        shown = c["vals"] if len(c["vals"]) <= 12 else "%s ... (%d values)" % (c["vals"][:12], len(c["vals"]))
+        if sv is None:
+            outside_pre += 1      # sum outside its stated precondition: no claim of the property; the model of the code still applies
+        if sv is not None and iv != sv:
             mism.append(dict(case=c, impl=iv, model=mv, spec=sv, kind="impl_violates_spec", known=known_class(c, iv),
-                             what="aggregator %s on %s (p=%s/%s): implementation %s, definition %s" % (c["name"], c["vals"], c["p"][0], c["p"][1], iv, sv)))
+                             what="aggregator %s%s on %s (p=%s/%s): implementation %s, definition %s" % (c["name"], at, shown, c["p"][0], c["p"][1], iv, sv)))
         elif mv != iv:
             mism.append(dict(case=c, impl=iv, model=mv, spec=sv, kind="model_differs", known=None,
-                             what="correspondence Agg/AggModel.v agg_%s vs ascent::aggregators::%s" % (c["name"], c["name"])))
+                             what="correspondence Agg/AggModel.v + Agg/AggRange.v agg_%s vs ascent::aggregators::%s%s" % (c["name"], c["name"], at)))
     lens = {}
     for c in cases:
         b = min(len(c["vals"]), 8)
@@ -172,17 +210,29 @@ def tie(tier, seed, replay):
     pst = pstats or dict(evaluations=0, distinct_nontrivial=0, samples=[])
     psamples = pst.pop("samples", [])
     return dict(evaluations=len(cases) + pst["evaluations"], distinct_nontrivial=len(seen) + pst["distinct_nontrivial"],
-                rule="function level: exhaustive lists over {-2..2} up to length 4 (quick) / 5 (thorough) for min/max/sum/mean; percentile: lists over {0,1,2} x 12 dyadic p incl. 0 and 100; random long lists; count/not under 4 iterator shapes (size hints); non-trivial = non-empty input; distinct = distinct (aggregator, p, iterator kind, list). "
+                rule="function level: exhaustive lists over {-2..2} up to length 4 (quick) / 5 (thorough) for min/max/sum/mean; percentile: lists over {0,1,2} x 12 dyadic p incl. 0 and 100; random long lists; count/not under 4 iterator shapes (size hints); non-trivial = non-empty input; distinct = distinct (aggregator, p, iterator kind, list, column type, build). "
+                     "Value range (gen/c17_range.py): min / max / percentile / sum / count / not at i8 i16 i32 i64 u8 u16 u32 u64 and mean at i8 i16 i32 u8 u16 u32 f32: all lists of length <= 2 over the "
+                     "edge values {MIN, MIN+1, MIN/2, -1, 0, 1, MAX/2, MAX/2+1, MAX-1, MAX} of the type, random lists (length 2..100) near MAX / near MIN / at both ends / uniform over the type, with repeated values, "
+                     "columns of 300..700 (thorough ..5000) moderate or constant values whose total leaves the type; sum additionally on columns whose positive / negative parts total exactly or nearly MAX / MIN; "
+                     "sum is compared with the definition only inside its precondition (negative and positive inputs each total within the type), outside it only with the model of the code (panic with overflow checks, wrap without); "
+                     "mean is compared bit-exactly (tolerance 0) with the exact rational mean rounded to f64: every case has sum|v| <= 2^53, so the code's f64 additions are exact and its one division is correctly rounded; "
+                     "every range case runs on the driver built with overflow checks (dev profile) and without (release profile). "
                      "Program level (gen/c17_prog.py): every aggregator and `!rel(..)` in `agg` items of compiled ascent! / ascent_par! rules with 0-5 body clauses, aggregate first / middle / last, "
                      "key = bound variable / constant / expression / wildcard, aggregated relation unary / binary / ternary projection, a recursive family; inputs: base, base with each relation emptied in turn, "
-                     "all aggregated relations empty, foreign keys only, singletons, all empty, random; one evaluation = (rule, input), compared with the python definition oracle and with "
+                     "all aggregated relations empty, foreign keys only, singletons, all empty, random; value range: all mean rules and a third (thorough: all) of the min / max / count / percentile / not rules "
+                     "on inputs whose aggregated relations hold values at / near i32::MIN and i32::MAX under small keys (totals far outside i32; programs are compiled with overflow checks); one evaluation = (rule, input), compared with the python definition oracle and with "
                      "Agg/AggClauseModel.v agg_clause on every (aggregator, key pattern, rows) asked; non-trivial = the aggregate is evaluated for at least one binding; distinct = distinct (macro, rule text, input)",
-                samples=[dict(case=c, impl=i[0], model=m) for c, i, m in list(zip(cases, impl, model))[:3] + list(zip(cases, impl, model))[-2:]] + psamples,
-                distribution=dict(by_aggregator=dist, by_input_length_capped_8=lens, percentile_ps=["%d/%d" % p for p in PS], program_level=pst),
+                samples=[dict(case=c, impl=i[0], model=m) for c, i, m in
+                         [x for x in zip(cases, impl, model) if not x[0].get("ty")][:3] + [x for x in zip(cases, impl, model) if x[0].get("ty") and 2 <= len(x[0]["vals"]) <= 5 and x[0]["name"] in ("mean", "sum")][-4:]] + psamples,
+                distribution=dict(by_aggregator=dist, by_input_length_capped_8=lens, percentile_ps=["%d/%d" % p for p in PS], by_column_type=by_ty, by_build=by_build, range_families=by_family,
+                                  sum_cases_outside_precondition_model_only=outside_pre, program_level=pst),
                 mismatches=mism,
                 trusted_base=["ds_driver (Rust) + gen/props/c17.py renderers and the python definition oracle",
                               "program level: gen/c17_prog.py (program renderer, naive rule evaluator, definition oracle), gen/prog.py, rustc; the rule-level semantics around the agg item (joins, strata) is C04's subject, here only the oracle's naive evaluation",
                               "Iterator::size_hint contract of the Rust standard library (count's shortcut): hint_ok in Agg/AggLaws.v",
-                              "sum: no overflow of the column type (stated precondition); mean/percentile: f64 arithmetic exact on the small integers / dyadic p used"],
-                assumptions=["values are modelled as unbounded Z; overflow of N in sum is outside the property's statement",
+                              "sum: no overflow of the column type (stated precondition: every prefix total is a value of N; checked in the order independent form `negative and positive inputs each total within N`, Props/C17.v c17_sum_in_column_type); "
+                              "mean: int -> f64 conversion exact for <= 32 bit integers, f64 addition exact while the result is an integer of magnitude <= 2^53, IEEE division correctly rounded; percentile: f64 arithmetic exact on the dyadic p used",
+                              "cargo profiles: dev = overflow-checks on, release = off (harness/ds_driver/Cargo.toml)"],
+                assumptions=["min / max / percentile / count / not / mean are modelled over unbounded Z (no intermediate of theirs has the column type; for mean this is c17_mean_not_limited_by_column_type); "
+                             "sum at a column type is Agg/AggRange.v agg_sum_checked / agg_sum_wrapped; overflow of N in sum is outside the property's statement",
                              "percentile's p is a rational; for dyadic p and len < 2^20 the f64 product and quotient cannot cross an integer"])
